@@ -535,7 +535,7 @@ def unsym(v):
 
 
 def canon_model_observation(v):
-    outs, hooks, fsets, per_disp, all_disp, dispatched, case_level, own = unsym(v)
+    outs, hooks, fsets, per_disp, all_disp, dispatched, case_level, own, case_prefix = unsym(v)
     return (
         list(outs),
         {
@@ -544,8 +544,9 @@ def canon_model_observation(v):
             "per_dispatcher": [[[canon_model_applied(c) for c in cells] for cells in row] for row in per_disp],
             "all_dispatchers": [[canon_model_applied(c) for c in cells] for cells in all_disp],
             "dispatched": [[list(c) for c in cells] for cells in dispatched],
-            "case_level": canon_model_applied(case_level),
+            "case_level": [canon_model_applied(c) for c in case_level],
             "own_chain": [canon_model_fs(x) for x in own],
+            "case_level_prefix": canon_model_applied(case_prefix),
         },
     )
 
@@ -1032,8 +1033,7 @@ def oracle_check(regs, unregister=(), seed=0):
                 if expected_selected(r, f):
                     expected.add(f["label"])
         if fired[r["id"]] != expected:
-            region = "case_hooks_ignore_filters" if target == "case" and r["filters"] and r["id"] not in unregister else None
-            bad.append((r, sorted(expected), sorted(fired[r["id"]]), region))
+            bad.append((r, sorted(expected), sorted(fired[r["id"]]), None))  # no listed region any more: C19-F2 is fixed
     return bad
 
 
@@ -1195,11 +1195,16 @@ def run(chk: core.Check):
         cases.append((ops, with_test, outs, obs))
     model = core.coq_eval(IMPORTS, [c_observe(ops, wt) for ops, wt, _, _ in cases], shard=40)
     agree = 0
+    f2_distinguishing = 0
     sentinel_cases = []
     for (ops, wt, outs, obs), mv in zip(cases, model):
         m_outs, m_obs = canon_model_observation(mv)
-        # as_strategy is observed per operation; the model's answer does not depend on the operation
-        m_obs["case_level"] = [m_obs["case_level"]] * len(UNIVERSE)
+        # regression sentinel for C19-F2 (fixed): what the pre-fix as_strategy would apply (no filter check, the same for every operation)
+        case_prefix = m_obs.pop("case_level_prefix")
+        if any(c != case_prefix for c in m_obs["case_level"]):
+            f2_distinguishing += 1
+            if all(c == case_prefix for c in obs["case_level"]):
+                chk.fail("case-level hooks are applied without looking at their filters again (C19-F2 is back)", {"ops": ops, "with_test": wt})
         # the specification side of C19_hook_gets_own_filter (value semantics) against the real filter_set attributes
         spec_sets = m_obs.pop("own_chain")
         if spec_sets != obs["filter_sets"]:
@@ -1225,7 +1230,10 @@ def run(chk: core.Check):
             sentinel_cases.append((ops, wt, obs))
         if len(ops) >= 4:
             chk.sample({"history": ops[:6], "outcomes": outs[:6], "filter_sets": [x for x in obs["filter_sets"] if x][:3]})
-    chk.stages["correspondence_hooks"] = {"histories": len(cases), "corpus": len(corpus), "agree": agree}
+    chk.stages["correspondence_hooks"] = {
+        "histories": len(cases), "corpus": len(corpus), "agree": agree,
+        "histories_where_case_hooks_with_and_without_filter_check_differ": f2_distinguishing,
+    }
 
     # ---- regression sentinel: the pre-fix model must NOT describe the code on histories where hooks carry different filters
     sent = sentinel_cases[: (60 if quick else 400)]
@@ -1356,7 +1364,7 @@ def replay(payload) -> int:
                 wt = inp.get("with_test", True)
                 outs, obs = run_history_real(ops, wt)
                 m_outs, m_obs = canon_model_observation(core.coq_eval(IMPORTS, [c_observe(ops, wt)])[0])
-                m_obs["case_level"] = [m_obs["case_level"]] * len(UNIVERSE)
+                m_obs.pop("case_level_prefix")
                 print("  spec own_chain         :", m_obs.pop("own_chain"))
             print("  implementation outcomes:", outs)
             print("  model outcomes         :", m_outs)
